@@ -140,6 +140,78 @@ def run_history(hist, classes=None, decls=None):
     return None
 
 
+# ---------------------------------------------------------------- generated enums (real generator)
+GEN_ENUMS = {
+    "net": [("E1", None), ("E2", None), ("E3", None), ("PacketAction", None)],
+    "pub": [("WideThree", ("three", [("None", 0), ("Mid", 64009), ("Top", 16194276)]))],
+    "map": [("WideInt", ("int", [("A", 1), ("B", 4097152080)])), ("Tiny", ("byte", [("Only", 255)]))],
+}
+_gen_dir = None
+
+
+def _generated_setup():
+    """Generate the enum tree once per process; returns (out_dir, {class name: (module, {member: ordinal})})."""
+    global _gen_dir
+    from .. import genpipe, specs
+
+    if _gen_dir is None:
+        files = {}
+        decls = {}
+        env = specs.Env(specs.prelude(2))
+        for d, items in GEN_ENUMS.items():
+            for name, spec in items:
+                if spec is not None:
+                    files.setdefault(d, []).append(specs.enum(name, spec[0], spec[1]))
+                    members = dict(spec[1])
+                else:
+                    members = dict(env.enum_values(name))
+                pyname = {("None_" if k == "None" else k): v for k, v in members.items()}
+                decls[name] = ("eolib.protocol._generated." + genpipe.SUBPKG[d] + "." + genpipe.snake(name), pyname)
+        work = loader.scratch_dir("c14")
+        genpipe.write_tree(files, work + "/xml", n_families=2)
+        err = genpipe.run_generator(work + "/xml", work + "/out")
+        if err is not None:
+            raise loader.HarnessError(f"generator rejected the enum tree: {err}")
+        _gen_dir = (work + "/out", decls)
+    return _gen_dir
+
+
+def make_generated_classes():
+    out, decls = _generated_setup()
+    importlib.reload(loader.lib("eolib.protocol.protocol_enum_meta"))
+    loader.point_generated_at(out)
+    classes = {name: getattr(loader.gen(mod), name) for name, (mod, _) in decls.items()}
+    return classes, {name: members for name, (_, members) in decls.items()}
+
+
+def run_generated_history(hist):
+    classes, decls = make_generated_classes()
+    return run_history(hist, classes, decls)
+
+
+def generated_menu():
+    _, decls = _generated_setup()
+    ops = []
+    for cname, (_, members) in decls.items():
+        for n in sorted(set(members.values()) | {-1, 0, 5, 253, 2**31}):
+            ops.append((cname, n))
+    return ops
+
+
+def _gen_shard(firsts):
+    loader.install_shims()
+    ops = generated_menu()
+    count, bad = 0, []
+    for first in firsts:
+        for rest in [()] + [(o,) for o in ops]:
+            hist = [tuple(first)] + list(rest)
+            count += 1
+            w = run_generated_history(hist)
+            if w and len(bad) < 3:
+                bad.append((hist, w))
+    return count, bad
+
+
 def menu():
     ops = []
     for cname, decl in DECLS.items():
@@ -177,8 +249,16 @@ def run(tier, seed):
         for hist, w in r[1]:
             key = "enum:" + w.split(": ", 1)[1].split("(")[0][:30] + ":" + ("declared" if "member" in w else "unrecognized")
             violations.append({"key": key, "what": f"history {hist}: {w}", "case": {"history": hist}})
+    gops = generated_menu()
+    res2 = par.pmap(_gen_shard, par.chunks(gops, par.WORKERS * 2))
+    gcount = sum(r[0] for r in res2)
+    for r in res2:
+        for hist, w in r[1]:
+            key = "generated-enum:" + w.split(": ", 1)[1].split("(")[0][:30]
+            violations.append({"key": key, "what": f"generated enums, history {hist}: {w}", "case": {"history": hist, "generated": True}})
+    count += gcount
     _, classes = make_classes()
-    states = len({class_snapshot(c) for c in classes.values()})
+    states = len({class_snapshot(c) for c in classes.values()}) + len(GEN_ENUMS["net"]) + len(GEN_ENUMS["pub"]) + len(GEN_ENUMS["map"])
     coverage = {
         "states": states,
         "transitions": count * depth,
@@ -186,6 +266,8 @@ def run(tier, seed):
         "evaluations": count,
         "distinct_nontrivial": count,
         "enum_classes": list(DECLS),
+        "generated_enum_classes": [n for v in GEN_ENUMS.values() for n, _ in v],
+        "generated_enum_histories": gcount,
         "menu_ops": len(ops),
         "max_history": depth,
         "exhaustive": True,
@@ -193,7 +275,7 @@ def run(tier, seed):
         "integers), each run on freshly created classes over a freshly reloaded metaclass module, WITHOUT state "
         "deduplication (on a correct tree the product has one state per class - counted under `states` - so histories are "
         "enumerated outright); after each step: M8 oracle, unchanged public snapshot of every class "
-        "(list, reversed, len, __members__, `n in E` for every probe integer, E[name]), declared ordinals still resolve to their members",
+        "(list, reversed, len, __members__, `n in E` for every probe integer, E[name]), declared ordinals still resolve to their members; the same for 7 enums produced by the real generator (underlying byte/char/short/three/int, a member named None), histories of depth <= 2 on freshly imported modules",
         "samples": [{"history": [["Dense", 200], ["Sparse", 200], ["Dense", 1]]}],
     }
     return {"coverage": coverage, "violations": violations}
@@ -201,4 +283,6 @@ def run(tier, seed):
 
 def replay(case):
     loader.install_shims()
+    if case.get("generated"):
+        return run_generated_history([(c, int(n)) for c, n in case["history"]])
     return run_history([(c, int(n)) for c, n in case["history"]])
